@@ -24,6 +24,7 @@ type PropConfig struct {
 	Assumptions []string `json:"assumptions"`        // unchecked assumptions, reported verbatim
 	Kinds       []string `json:"kinds"`              // restrict counted obligations to these kinds (optional)
 	Only        []string `json:"only"`               // substrings: restrict counted obligations (optional)
+	Include     []string `json:"include"`            // substrings of obligation names counted even if an exclude entry matches
 	Exclude     []string `json:"exclude"`            // substrings of obligation names not counted for this property
 	Bounded     []string `json:"bounded_standins"`   // descriptions of bounded stand-ins (never counted as discharged)
 }
@@ -377,6 +378,12 @@ func cmdCheck(args []string) int {
 			fmt.Printf("SELFTEST-MISS: %s stayed quiet on seeded change %s (verifier weakness, not a violation on /repo)\n", id, m)
 		}
 		fmt.Printf("must-fail corpus: %d run, %d caught, %d missed, %d skipped\n", st.Ran, st.Caught, len(st.Missed), len(st.Skipped))
+		mp := runMustPass(id)
+		cov["must_pass_corpus"] = mp
+		for _, m := range mp.Alarmed {
+			fmt.Printf("SELFTEST-FALSE-ALARM: %s alarmed on behaviour-preserving change %s (verifier weakness, not a violation on /repo)\n", id, m)
+		}
+		fmt.Printf("must-pass corpus: %d run, %d quiet, %d alarmed, %d expected binding alarms, %d skipped\n", mp.Ran, mp.Quiet, len(mp.Alarmed), len(mp.Expected), len(mp.Skipped))
 		// agreement between the three solvers
 		disagree := 0
 		for _, vc := range all {
@@ -418,6 +425,11 @@ func cmdCheck(args []string) int {
 func round2(f float64) float64 { return float64(int(f*100+0.5)) / 100 }
 
 func countsFor(pc *PropConfig, vc *VC, sweep bool) bool {
+	for _, in := range pc.Include {
+		if strings.Contains(vc.Obl, in) {
+			return true
+		}
+	}
 	for _, ex := range pc.Exclude {
 		if strings.Contains(vc.Obl, ex) {
 			return false
